@@ -4,6 +4,8 @@ the property it was written against on /repo with the change applied (undone str
 writes seeded/REGRESSION.json / REGRESSION.md. Needs a clean /repo; restores evidence/ afterwards."""
 import json, os, subprocess, sys, glob, time, re
 ROOT = os.path.dirname(os.path.dirname(os.path.abspath(__file__)))
+REPO = os.environ.get("VERIF_REGRESS_REPO", "/repo")  # a scratch worktree of /repo when the scratch copy of /verif is used
+SEEDS = os.environ.get("VERIF_REGRESS_SEEDS", os.path.join(ROOT, "seeded"))
 ENV = dict(os.environ, CARGO_NET_OFFLINE="true")
 THOROUGH_ONLY = {"C19-r3-2"}  # needs the release-profile build, which only the thorough tier makes
 
@@ -15,17 +17,20 @@ def sh(cmd, cwd=None, timeout=3000):
 
 def main():
     md_only = "--md-only" in sys.argv
-    ids = [a for a in sys.argv[1:] if not a.startswith("--")] or sorted(os.path.basename(os.path.dirname(f)) for f in glob.glob(os.path.join(ROOT, "seeded", "*", "patch.diff")))
-    out_f = os.path.join(ROOT, "seeded", "REGRESSION.json")
+    resume = "--resume" in sys.argv  # skip seeds REGRESSION.json already has a result for
+    ids = [a for a in sys.argv[1:] if not a.startswith("--")] or sorted(os.path.basename(os.path.dirname(f)) for f in glob.glob(os.path.join(SEEDS, "*", "patch.diff")))
+    out_f = os.path.join(SEEDS, "REGRESSION.json")
     res = json.load(open(out_f)) if os.path.exists(out_f) else {}
     for sid in ([] if md_only else ids):
-        d = os.path.join(ROOT, "seeded", sid)
+        if resume and sid in res and "rc" in res[sid]:
+            continue
+        d = os.path.join(SEEDS, sid)
         meta = json.load(open(os.path.join(d, "meta.json")))
         prop = meta["property"]
-        rc, o = sh(["git", "-C", "/repo", "status", "--porcelain", "--untracked-files=no"])
+        rc, o = sh(["git", "-C", REPO, "status", "--porcelain", "--untracked-files=no"])
         if o.strip():
-            print("/repo is not clean"); return 1
-        rc, o = sh(["git", "-C", "/repo", "apply", os.path.join(d, "patch.diff")])
+            print(REPO + " is not clean"); return 1
+        rc, o = sh(["git", "-C", REPO, "apply", os.path.join(d, "patch.diff")])
         if rc != 0:
             res[sid] = {"property": prop, "error": "patch does not apply: " + o[-300:]}
             continue
@@ -34,15 +39,18 @@ def main():
             tier = "thorough" if sid in THOROUGH_ONLY else "quick"
             rc, o = sh(["./check", prop, "--tier", tier], cwd=ROOT)
         finally:
-            sh(["git", "-C", "/repo", "checkout", "--", "."])
-            sh(["git", "-C", "/repo", "clean", "-fdq", "--", "src", "shred-derive", "tests", "examples", "benches"])
+            sh(["git", "-C", REPO, "checkout", "--", "."])
+            sh(["git", "-C", REPO, "clean", "-fdq", "--", "src", "shred-derive", "tests", "examples", "benches"])
         viol = [l for l in o.splitlines() if l.startswith("VIOLATION")]
         kinds = sorted(set(re.search(r"replays/%s-([a-z-]+)-\d+" % prop, l).group(1) for l in viol if re.search(r"replays/%s-([a-z-]+)-\d+" % prop, l)))
         what = ""
         for l in viol[:1]:
             m = re.search(r"replay=(\S+)", l)
             if m and os.path.exists(m.group(1)):
-                what = json.load(open(m.group(1))).get("observed", "")[:300]
+                try:
+                    what = json.load(open(m.group(1))).get("observed", "")[:300]
+                except ValueError:
+                    what = "(unreadable replay)"
         res[sid] = {"property": prop, "tier": tier, "rc": rc, "violations": len(viol), "kinds": kinds,
                     "with_failing_input": any("no-failing-input-found" not in l for l in viol), "observed": what,
                     "caught_at_first_evaluation": bool(meta.get("detected_by_target_check")), "wall_s": round(time.time() - t0, 1)}
@@ -55,13 +63,13 @@ def main():
     rows = ["| seed | change | needs to manifest | caught at first evaluation | caught now by ./check <its property> | how |", "|---|---|---|---|---|---|"]
     for sid in sorted(res):
         r = res[sid]
-        meta = json.load(open(os.path.join(ROOT, "seeded", sid, "meta.json")))
+        meta = json.load(open(os.path.join(SEEDS, sid, "meta.json")))
         how = "—" if not r.get("violations") else ("failing input + replay" if r.get("with_failing_input") else "no-failing-input-found (%s)" % ", ".join(r.get("kinds", [])))
         if r.get("tier") == "thorough":
             how += " (thorough tier)"
         rows.append("| %s | %s | %s | %s | %s | %s |" % (sid, meta.get("change", "").replace("|", "/"), meta.get("needs_to_manifest", "").replace("|", "/"),
                                                        "yes" if r.get("caught_at_first_evaluation") else "no", "yes" if r.get("rc") == 1 else "**no**", how))
-    open(os.path.join(ROOT, "seeded", "REGRESSION.md"), "w").write("\n".join(rows) + "\n")
+    open(os.path.join(SEEDS, "REGRESSION.md"), "w").write("\n".join(rows) + "\n")
     return 0
 
 
